@@ -3,7 +3,7 @@ use crate::gen::G;
 use crate::placement;
 use crate::util::{diff_signature, tree_diffs, Arena};
 use pallas_codec::minicbor;
-use pallas_codec::utils::{KeepRaw, Nullable};
+use pallas_codec::utils::{KeepRaw, NonEmptySet, Nullable, Set};
 use pallas_primitives::{alonzo, babbage, byron, conway, Metadata, Metadatum, PlutusData};
 use proptest::prelude::*;
 use pvkit::cborx::{self, hexser};
@@ -12,6 +12,8 @@ use serde::{Deserialize, Serialize};
 use std::sync::atomic::{AtomicU64, Ordering as AO};
 
 mod shape;
+mod shape_ledger;
+use shape_ledger as sl;
 
 static UNDECODABLE: AtomicU64 = AtomicU64::new(0);
 static UNDECODABLE_UNEXPECTED: AtomicU64 = AtomicU64::new(0);
@@ -750,7 +752,7 @@ pub struct ValueCase {
     pub choices: Vec<u64>,
 }
 
-pub const TYPES: [&str; 90] = [
+pub const TYPES: [&str; 92] = [
     "Metadatum", "Metadata", "AuxiliaryData", "Relay", "RationalNumber", "StakeCredential", "Nonce", "PoolMetadata",
     "ExUnits", "ExUnitPrices", "TransactionInput", "NativeScript", "MoveInstantaneousReward",
     "alonzo::Value", "conway::Value", "alonzo::Mint", "conway::Mint",
@@ -775,7 +777,7 @@ pub const TYPES: [&str; 90] = [
     "byron::BlockSig", "byron::BlockCons", "byron::BlockHeadEx", "byron::BlockProof", "byron::BlockHead",
     "byron::EbbCons", "byron::EbbHead", "byron::BlockBody", "byron::Block", "byron::EbBlock",
     "alonzo::RedeemerPointer", "babbage::PostAlonzoTransactionOutput", "conway::PostAlonzoTransactionOutput",
-    "conway::Update", "Language",
+    "conway::Update", "Language", "PlutusData", "Set+NonEmptySet",
 ];
 
 /// encode, check well-formedness with cborx, decode, compare, check full consumption
@@ -866,6 +868,29 @@ fn shape_check(label: &str, origin: &str, exp: &shape::E, bytes: &[u8]) -> Resul
     Ok(())
 }
 
+fn aux_raw<'x>(a: &'x Nullable<KeepRaw<'_, alonzo::AuxiliaryData>>) -> Nullable<&'x [u8]> {
+    match a {
+        Nullable::Some(k) => Nullable::Some(k.raw_cbor()),
+        Nullable::Null => Nullable::Null,
+        Nullable::Undefined => Nullable::Undefined,
+    }
+}
+fn alonzo_tx_shape(v: &alonzo::Tx) -> shape::E {
+    sl::tx_envelope(v.transaction_body.raw_cbor(), v.transaction_witness_set.raw_cbor(), v.success, aux_raw(&v.auxiliary_data))
+}
+fn babbage_tx_shape(v: &babbage::Tx) -> shape::E {
+    sl::tx_envelope(v.transaction_body.raw_cbor(), v.transaction_witness_set.raw_cbor(), v.success, aux_raw(&v.auxiliary_data))
+}
+fn conway_tx_shape(v: &conway::Tx) -> shape::E {
+    sl::tx_envelope(v.transaction_body.raw_cbor(), v.transaction_witness_set.raw_cbor(), v.success, aux_raw(&v.auxiliary_data))
+}
+fn set_inputs_shape(v: &Set<pallas_primitives::TransactionInput>) -> shape::E {
+    sl::set_of(v, sl::input)
+}
+fn nes_hashes_shape(v: &NonEmptySet<pallas_primitives::Hash<28>>) -> shape::E {
+    sl::set_of(v, |h| shape::E::Leaf(cborx::bytes(h.as_ref())))
+}
+
 /// `rt!` followed by the shape oracle on the bytes the encoder produced
 macro_rules! rts {
     ($label:expr, $ty:ty, $v:expr, $shape:path, $g:expr, $key:expr, $mode:ident) => {{
@@ -884,23 +909,23 @@ fn check_value(c: &ValueCase, obs: &mut Obs) -> Result<(), Fail> {
     let k = &mut key;
     let t = c.ty.as_str();
     match t {
-        "Metadatum" => rt!(t, Metadatum, g.metadatum(3), g, k, eq),
-        "Metadata" => rt!(t, Metadata, g.metadata(), g, k, eq),
-        "AuxiliaryData" => rt!(t, alonzo::AuxiliaryData, g.aux_data(), g, k, eq),
-        "Relay" => rt!(t, pallas_primitives::Relay, g.relay(), g, k, eq),
-        "RationalNumber" => rt!(t, pallas_primitives::RationalNumber, g.rational(), g, k, eq),
-        "StakeCredential" => rt!(t, pallas_primitives::StakeCredential, g.stake_cred(), g, k, eq),
-        "Nonce" => rt!(t, pallas_primitives::Nonce, g.nonce(), g, k, eq),
-        "PoolMetadata" => rt!(t, pallas_primitives::PoolMetadata, g.pool_metadata(), g, k, eq),
-        "ExUnits" => rt!(t, pallas_primitives::ExUnits, g.exunits(), g, k, eq),
-        "ExUnitPrices" => rt!(t, pallas_primitives::ExUnitPrices, g.exunit_prices(), g, k, eq),
-        "TransactionInput" => rt!(t, pallas_primitives::TransactionInput, g.input(), g, k, eq),
-        "NativeScript" => rt!(t, alonzo::NativeScript, g.native_script(3), g, k, eq),
-        "MoveInstantaneousReward" => rt!(t, alonzo::MoveInstantaneousReward, g.mir(), g, k, eq),
-        "alonzo::Value" => rt!(t, alonzo::Value, g.alonzo_value(), g, k, eq),
-        "conway::Value" => rt!(t, conway::Value, g.conway_value(), g, k, eq),
-        "alonzo::Mint" => rt!(t, alonzo::Mint, g.alonzo_mint(), g, k, eq),
-        "conway::Mint" => rt!(t, conway::Mint, g.conway_mint(), g, k, eq),
+        "Metadatum" => rts!(t, Metadatum, g.metadatum(3), sl::metadatum, g, k, eq),
+        "Metadata" => rts!(t, Metadata, g.metadata(), sl::metadata, g, k, eq),
+        "AuxiliaryData" => rts!(t, alonzo::AuxiliaryData, g.aux_data(), sl::auxiliary_data, g, k, eq),
+        "Relay" => rts!(t, pallas_primitives::Relay, g.relay(), sl::relay, g, k, eq),
+        "RationalNumber" => rts!(t, pallas_primitives::RationalNumber, g.rational(), sl::rational, g, k, eq),
+        "StakeCredential" => rts!(t, pallas_primitives::StakeCredential, g.stake_cred(), sl::stake_credential, g, k, eq),
+        "Nonce" => rts!(t, pallas_primitives::Nonce, g.nonce(), sl::nonce, g, k, eq),
+        "PoolMetadata" => rts!(t, pallas_primitives::PoolMetadata, g.pool_metadata(), sl::pool_metadata, g, k, eq),
+        "ExUnits" => rts!(t, pallas_primitives::ExUnits, g.exunits(), sl::ex_units, g, k, eq),
+        "ExUnitPrices" => rts!(t, pallas_primitives::ExUnitPrices, g.exunit_prices(), sl::ex_unit_prices, g, k, eq),
+        "TransactionInput" => rts!(t, pallas_primitives::TransactionInput, g.input(), sl::input, g, k, eq),
+        "NativeScript" => rts!(t, alonzo::NativeScript, g.native_script(3), sl::native_script, g, k, eq),
+        "MoveInstantaneousReward" => rts!(t, alonzo::MoveInstantaneousReward, g.mir(), sl::mir, g, k, eq),
+        "alonzo::Value" => rts!(t, alonzo::Value, g.alonzo_value(), sl::alonzo_value, g, k, eq),
+        "conway::Value" => rts!(t, conway::Value, g.conway_value(), sl::conway_value, g, k, eq),
+        "alonzo::Mint" => rts!(t, alonzo::Mint, g.alonzo_mint(), sl::alonzo_mint, g, k, eq),
+        "conway::Mint" => rts!(t, conway::Mint, g.conway_mint(), sl::conway_mint, g, k, eq),
         "alonzo::Certificate" => rt!(t, alonzo::Certificate, g.alonzo_cert(), g, k, eq),
         "conway::Certificate" => rt!(t, conway::Certificate, g.conway_cert(), g, k, eq),
         "DRep" => rt!(t, conway::DRep, g.drep(), g, k, eq),
@@ -914,8 +939,8 @@ fn check_value(c: &ValueCase, obs: &mut Obs) -> Result<(), Fail> {
         "alonzo::ProtocolParamUpdate" => rt!(t, alonzo::ProtocolParamUpdate, g.alonzo_ppu(), g, k, eq),
         "babbage::ProtocolParamUpdate" => rt!(t, babbage::ProtocolParamUpdate, g.babbage_ppu(), g, k, eq),
         "conway::ProtocolParamUpdate" => rt!(t, conway::ProtocolParamUpdate, g.conway_ppu(false), g, k, eq),
-        "alonzo::CostModels" => rt!(t, alonzo::CostModels, g.alonzo_cost_models(), g, k, eq),
-        "babbage::CostModels" => rt!(t, babbage::CostModels, g.babbage_cost_models(), g, k, eq),
+        "alonzo::CostModels" => rts!(t, alonzo::CostModels, g.alonzo_cost_models(), sl::alonzo_cost_models, g, k, eq),
+        "babbage::CostModels" => rts!(t, babbage::CostModels, g.babbage_cost_models(), sl::babbage_cost_models, g, k, eq),
         // the only place where cost models of unknown languages (> PlutusV3) are generated
         "conway::CostModels" => {
             let v = g.conway_cost_models(true);
@@ -935,19 +960,19 @@ fn check_value(c: &ValueCase, obs: &mut Obs) -> Result<(), Fail> {
                     }
                 }
             }
-            rt!(t, conway::CostModels, v, g, k, eq)
+            rts!(t, conway::CostModels, v, sl::conway_cost_models, g, k, eq)
         }
         "alonzo::Update" => rt!(t, alonzo::Update, g.alonzo_update(), g, k, eq),
         "babbage::Update" => rt!(t, babbage::Update, g.babbage_update(), g, k, eq),
-        "alonzo::Redeemer" => rt!(t, alonzo::Redeemer, g.alonzo_redeemer(), g, k, eq),
-        "conway::Redeemer" => rt!(t, conway::Redeemer, g.conway_redeemer(), g, k, eq),
-        "conway::Redeemers" => rt!(t, conway::Redeemers, g.conway_redeemers(), g, k, eq),
-        "DatumOption" => rt!(t, babbage::DatumOption<'_>, g.datum_option(), g, k, eq),
-        "babbage::ScriptRef" => rt!(t, babbage::ScriptRef<'_>, g.babbage_script_ref(), g, k, eq),
-        "conway::ScriptRef" => rt!(t, conway::ScriptRef<'_>, g.conway_script_ref(), g, k, eq),
-        "alonzo::TransactionOutput" => rt!(t, alonzo::TransactionOutput, g.alonzo_output(), g, k, eq),
-        "babbage::TransactionOutput" => rt!(t, babbage::TransactionOutput<'_>, g.babbage_output(), g, k, eq),
-        "conway::TransactionOutput" => rt!(t, conway::TransactionOutput<'_>, g.conway_output(), g, k, eq),
+        "alonzo::Redeemer" => rts!(t, alonzo::Redeemer, g.alonzo_redeemer(), sl::alonzo_redeemer, g, k, eq),
+        "conway::Redeemer" => rts!(t, conway::Redeemer, g.conway_redeemer(), sl::conway_redeemer, g, k, eq),
+        "conway::Redeemers" => rts!(t, conway::Redeemers, g.conway_redeemers(), sl::conway_redeemers, g, k, eq),
+        "DatumOption" => rts!(t, babbage::DatumOption<'_>, g.datum_option(), sl::datum_option, g, k, eq),
+        "babbage::ScriptRef" => rts!(t, babbage::ScriptRef<'_>, g.babbage_script_ref(), sl::babbage_script_ref, g, k, eq),
+        "conway::ScriptRef" => rts!(t, conway::ScriptRef<'_>, g.conway_script_ref(), sl::conway_script_ref, g, k, eq),
+        "alonzo::TransactionOutput" => rts!(t, alonzo::TransactionOutput, g.alonzo_output(), sl::alonzo_output, g, k, eq),
+        "babbage::TransactionOutput" => rts!(t, babbage::TransactionOutput<'_>, g.babbage_output(), sl::babbage_output, g, k, eq),
+        "conway::TransactionOutput" => rts!(t, conway::TransactionOutput<'_>, g.conway_output(), sl::conway_output, g, k, eq),
         "alonzo::TransactionBody" => {
             let v = g.alonzo_body();
             let bytes = minicbor::to_vec(&v).map_err(|e| Fail { sig: format!("encode-error:{t}"), msg: e.to_string() })?;
@@ -983,9 +1008,9 @@ fn check_value(c: &ValueCase, obs: &mut Obs) -> Result<(), Fail> {
             placement::babbage_header(&bytes, &v)?;
             rt!(t, babbage::Header, v, g, k, eq)
         }
-        "alonzo::Tx" => rt!(t, alonzo::Tx<'_>, g.alonzo_tx(), g, k, dbg),
-        "babbage::Tx" => rt!(t, babbage::Tx<'_>, g.babbage_tx(), g, k, dbg),
-        "conway::Tx" => rt!(t, conway::Tx<'_>, g.conway_tx(), g, k, eq),
+        "alonzo::Tx" => rts!(t, alonzo::Tx<'_>, g.alonzo_tx(), alonzo_tx_shape, g, k, dbg),
+        "babbage::Tx" => rts!(t, babbage::Tx<'_>, g.babbage_tx(), babbage_tx_shape, g, k, dbg),
+        "conway::Tx" => rts!(t, conway::Tx<'_>, g.conway_tx(), conway_tx_shape, g, k, eq),
         "alonzo::Block" => rt!(t, alonzo::Block<'_>, g.alonzo_block(), g, k, eq),
         "babbage::Block" => rt!(t, babbage::Block<'_>, g.babbage_block(), g, k, eq),
         "conway::Block" => rt!(t, conway::Block<'_>, g.conway_block(), g, k, eq),
@@ -1020,12 +1045,17 @@ fn check_value(c: &ValueCase, obs: &mut Obs) -> Result<(), Fail> {
         "byron::EbBlock" => rts!(t, byron::EbBlock<'_>, g.byron_eb_block(), shape::eb_block, g, k, dbg),
         "alonzo::RedeemerPointer" => rt!(t, alonzo::RedeemerPointer, g.alonzo_redeemer_pointer(), g, k, eq),
         "babbage::PostAlonzoTransactionOutput" => {
-            rt!(t, babbage::PostAlonzoTransactionOutput<'_>, g.babbage_post_alonzo_output(), g, k, eq)
+            rts!(t, babbage::PostAlonzoTransactionOutput<'_>, g.babbage_post_alonzo_output(), sl::babbage_post_alonzo_output, g, k, eq)
         }
         "conway::PostAlonzoTransactionOutput" => {
-            rt!(t, conway::PostAlonzoTransactionOutput<'_>, g.conway_post_alonzo_output(), g, k, eq)
+            rts!(t, conway::PostAlonzoTransactionOutput<'_>, g.conway_post_alonzo_output(), sl::conway_post_alonzo_output, g, k, eq)
         }
         "conway::Update" => rt!(t, conway::Update, g.conway_update(), g, k, eq),
+        "PlutusData" => rts!(t, PlutusData, g.plutus_data(), sl::plutus_data, g, k, dbg),
+        "Set+NonEmptySet" => {
+            rts!("Set<TransactionInput>", Set<pallas_primitives::TransactionInput>, g.set_of_inputs(), set_inputs_shape, g, k, eq);
+            rts!("NonEmptySet<Hash<28>>", NonEmptySet<pallas_primitives::Hash<28>>, g.nonempty_set_of_hashes(), nes_hashes_shape, g, k, eq);
+        }
         "Language" => {
             rt!("alonzo::Language", alonzo::Language, alonzo::Language::PlutusV1, g, k, eq);
             rt!("babbage::Language", babbage::Language, g.babbage_language(), g, k, eq);
@@ -1143,6 +1173,9 @@ fn value_classes() -> Vec<String> {
                 v.push(format!("value:{era}::GenPostAlonzoTransactionOutput(datum={d},script={sc})"));
             }
         }
+    }
+    for c in ["value:Set:empty", "value:Set:nonempty", "value:NonEmptySet", "ty:PlutusData", "ty:Set+NonEmptySet"] {
+        v.push(c.to_string());
     }
     for c in ["babbage::Language#0", "babbage::Language#1", "conway::Language#0", "conway::Language#1", "conway::Language#2"] {
         v.push(c.to_string());
